@@ -92,7 +92,7 @@ func (ic instrCompiler) ProcessLoadConstInstr(l ir.LoadConst) {
 	}
 	if !inlined {
 		ckidx := ic.QueueConstant(l.Kidx)
-		opcode = code.LoadConst(dst, code.KIndexFromInt(ckidx))
+		opcode = code.LoadConst(dst, kIndex(ckidx))
 	}
 	ic.Emit(opcode)
 }
@@ -139,7 +139,7 @@ func (ic instrCompiler) ProcessCallInstr(c ir.Call) {
 // ProcessMkClosureInstr compiles a MkClosure instruction.
 func (ic instrCompiler) ProcessMkClosureInstr(m ir.MkClosure) {
 	ckidx := ic.QueueConstant(m.Code)
-	opcode := code.LoadClosure(ic.codeReg(m.Dst), code.KIndexFromInt(ckidx))
+	opcode := code.LoadClosure(ic.codeReg(m.Dst), kIndex(ckidx))
 	ic.Emit(opcode)
 	// Now add the upvalues
 	for _, upval := range m.Upvalues {
@@ -200,7 +200,7 @@ func (ic instrCompiler) ProcessReceiveEtcInstr(r ir.ReceiveEtc) {
 // ProcessEtcLookupInstr compiles a EtcLookup instruction.
 func (ic instrCompiler) ProcessEtcLookupInstr(l ir.EtcLookup) {
 	if l.Idx < 0 || l.Idx >= 256 {
-		panic("Etc lookup index out of range")
+		panic(newPanic("too many values taken from '...'"))
 	}
 	ic.Emit(code.LoadEtcLookup(ic.codeReg(l.Dst), ic.codeReg(l.Etc), l.Idx))
 }
@@ -208,7 +208,7 @@ func (ic instrCompiler) ProcessEtcLookupInstr(l ir.EtcLookup) {
 // ProcessFillTableInstr compiles a FillTable instruction.
 func (ic instrCompiler) ProcessFillTableInstr(f ir.FillTable) {
 	if f.Idx < 0 || f.Idx >= 256 {
-		panic("Fill table index out of range")
+		panic(newPanic("too many items before a multiple value item in table constructor"))
 	}
 	ic.Emit(code.FillTable(ic.codeReg(f.Dst), ic.codeReg(f.Etc), f.Idx))
 }
@@ -216,7 +216,7 @@ func (ic instrCompiler) ProcessFillTableInstr(f ir.FillTable) {
 // ProcessTruncateCloseStackInstr compiles a TruncateCloseStack instruction.
 func (ic instrCompiler) ProcessTruncateCloseStackInstr(t ir.TruncateCloseStack) {
 	if t.Height < 0 || t.Height >= 65536 {
-		panic("close stack height out of range")
+		panic(newPanic("too many to-be-closed variables"))
 	}
 	ic.Emit(code.ClTrunc(uint16(t.Height)))
 }
@@ -318,6 +318,15 @@ func allocReg(regs []int) ([]int, uint8) {
 	}
 	i := len(regs)
 	return append(regs, 0), uint8(i)
+}
+
+// kIndex returns the KIndex encoding the index i in the constants table, or
+// panics with a *CompilationPanic if there are too many constants for that.
+func kIndex(i int) code.KIndex {
+	if i < 0 || i > math.MaxUint16 {
+		panic(newPanic("too many constants"))
+	}
+	return code.KIndexFromInt(i)
 }
 
 type CompilationPanic struct {
